@@ -18,3 +18,150 @@ pub fn bytes_of(bits: &[bool]) -> Vec<u8> {
     }
     out
 }
+
+// ---- X.691 (08/2015) unaligned PER reference encoder, written from the standard (independent of the crate) ----
+
+pub fn nbits(v: u64, w: usize, out: &mut Vec<bool>) {
+    for i in 0..w {
+        out.push((v >> (w - 1 - i)) & 1 == 1);
+    }
+}
+
+pub fn width(range: u64) -> usize {
+    let mut w = 0;
+    let mut r = range;
+    while r > 0 {
+        w += 1;
+        r >>= 1;
+    }
+    w
+}
+
+/// 11.5
+pub fn cwn(lb: i64, ub: i64, v: i64, out: &mut Vec<bool>) {
+    let range = (ub as i128 - lb as i128) as u64;
+    nbits((v as i128 - lb as i128) as u64, width(range), out);
+}
+
+pub fn min_octets(n: u64) -> usize {
+    let mut k = 1;
+    let mut x = n >> 8;
+    while x > 0 {
+        k += 1;
+        x >>= 8;
+    }
+    k
+}
+
+/// 11.9.3.6 / 11.9.3.7
+pub fn len_short(n: u64, out: &mut Vec<bool>) {
+    if n < 128 {
+        out.push(false);
+        nbits(n, 7, out);
+    } else {
+        out.push(true);
+        out.push(false);
+        nbits(n, 14, out);
+    }
+}
+
+/// 11.9.3.5-8: header for n items; returns the number of items this header announces
+pub fn len_general(n: u64, out: &mut Vec<bool>) -> u64 {
+    if n < 16384 {
+        len_short(n, out);
+        n
+    } else {
+        let blocks = (n / 16384).min(4);
+        out.push(true);
+        out.push(true);
+        nbits(blocks, 6, out);
+        blocks * 16384
+    }
+}
+
+/// 11.7 with offset n from the lower bound
+pub fn semi(n: u64, out: &mut Vec<bool>) {
+    let k = min_octets(n);
+    len_short(k as u64, out);
+    nbits(n, 8 * k, out);
+}
+
+/// 11.6
+pub fn nsnnwn(n: u64, out: &mut Vec<bool>) {
+    if n < 64 {
+        out.push(false);
+        nbits(n, 6, out);
+    } else {
+        out.push(true);
+        semi(n, out);
+    }
+}
+
+pub fn min_octets_2c(v: i64) -> usize {
+    for k in 1..8usize {
+        let lo = -(1i128 << (8 * k - 1));
+        let hi = (1i128 << (8 * k - 1)) - 1;
+        if (v as i128) >= lo && (v as i128) <= hi {
+            return k;
+        }
+    }
+    8
+}
+
+/// 11.8
+pub fn uwn(v: i64, out: &mut Vec<bool>) {
+    let k = min_octets_2c(v);
+    len_short(k as u64, out);
+    let bits = 8 * k;
+    let pat = if bits == 64 { v as u64 } else { (v as u64) & ((1u64 << bits) - 1) };
+    nbits(pat, bits, out);
+}
+
+/// 14 / 23
+pub fn index(std: u64, ext: bool, idx: u64, out: &mut Vec<bool>) {
+    if idx < std {
+        if ext {
+            out.push(false);
+        }
+        nbits(idx, width(std - 1), out);
+    } else {
+        out.push(true);
+        nsnnwn(idx - std, out);
+    }
+}
+
+/// 11.9.3.8 fragmentation of `items` units of `unit` bits each taken from `content`
+pub fn frag(content: &[bool], unit: usize, out: &mut Vec<bool>) {
+    let mut rest = content;
+    loop {
+        let n = (rest.len() / unit) as u64;
+        let a = len_general(n, out) as usize;
+        out.extend_from_slice(&rest[..a * unit]);
+        rest = &rest[a * unit..];
+        if n < 16384 {
+            break;
+        }
+    }
+}
+
+/// 16 / 17 with SIZE(lb..ub[,...]) inside the conformance profile (no bounds, or ub < 64K); unit = 8 (octets) or 1 (bits)
+pub fn sized(lb: Option<u64>, ub: Option<u64>, ext: bool, content: &[bool], unit: usize, out: &mut Vec<bool>) {
+    let n = (content.len() / unit) as u64;
+    let l = lb.unwrap_or(0);
+    let u = ub.unwrap_or(i64::MAX as u64);
+    let outside = n < l || n > u;
+    if ext {
+        out.push(outside);
+    }
+    if outside {
+        frag(content, unit, out);
+    } else if u == 0 && unit == 8 {
+    } else if lb.is_some() && lb == ub && u < 65536 {
+        out.extend_from_slice(content);
+    } else if lb.is_none() && ub.is_none() {
+        frag(content, unit, out);
+    } else {
+        nbits(n - l, width(u - l), out);
+        out.extend_from_slice(content);
+    }
+}
